@@ -9,6 +9,7 @@ from types import TracebackType
 from typing import Callable, Dict, Iterable, List, Optional, Type
 
 from pygments.lexers import guess_lexer_for_filename
+from pygments.util import ClassNotFound
 from pygments.token import Comment, Keyword, Name, Number, Operator, String
 from pygments.token import Text as TextToken
 from pygments.token import Token
@@ -426,9 +427,13 @@ class Traceback:
     @classmethod
     def _guess_lexer(cls, filename: str, code: str) -> str:
         ext = os.path.splitext(filename)[-1]
-        lexer_name = (
-            cls.LEXERS.get(ext) or guess_lexer_for_filename(filename, code).name
-        )
+        try:
+            lexer_name = (
+                cls.LEXERS.get(ext) or guess_lexer_for_filename(filename, code).name
+            )
+        except ClassNotFound:
+            # no lexer claims this file name (no extension, unknown extension): show the code un-highlighted
+            lexer_name = "text"
         return lexer_name
 
     @render_group()
